@@ -1,8 +1,91 @@
-import LW.Model.Analysis
+/-
+  C05 — Simulator, Sampler, Analyzer and QuickSampler tell one consistent story.
+
+  Model: LW.Model.Analysis (analyze, analyzerProb, analyzerOutputs, quickDist, psValidate) on top of
+  LW.Model.Dist / Fock.  The sampler's distribution for an ideal source is `fullDistPermanent`
+  (`Sampler.probability_distribution` = `pdistCalc` of a single input of weight one).
+-/
+import LW.Proofs.C05
 
 namespace LW.C05
 
-/-- interim (replaced by the real theorems): without rules every state is accepted -/
-theorem psValidate_nil (s : FState) : psValidate [] s = true := rfl
+variable {K Q : Type} [CommRing K] [Field Q] [LinearOrder Q] [IsStrictOrderedRing Q]
+
+/-- an analyzer entry is the transition probability of the heralded output summed over every
+configuration of the lost photons on the loss modes -/
+theorem analyzerProb_eq_marginal (nsq : K → Q) (U : M K) (lossModes : Nat) (fin fo : FState)
+    (hle : photons fo ≤ photons fin) :
+    analyzerProb nsq U lossModes fin fo =
+      .ok (((fockBasis lossModes (photons fin - photons fo)).map fun ls =>
+              transProb nsq U fin (fo ++ ls)).sum) ∨
+    (lossModes = 0 ∧ analyzerProb nsq U lossModes fin fo = .ok (transProb nsq U fin fo)) :=
+  Proofs.C05.analyzerProb_eq_marginal nsq U lossModes fin fo hle
+
+/-- an output holding more photons than the input is refused -/
+theorem analyzerProb_rejects (nsq : K → Q) (U : M K) (lossModes : Nat) (fin fo : FState)
+    (hl : lossModes ≠ 0) (hgt : photons fin < photons fo) :
+    analyzerProb nsq U lossModes fin fo = .error .photonNumber :=
+  Proofs.C05.analyzerProb_rejects nsq U lossModes fin fo hl hgt
+
+/-- ANALYZER = SAMPLER: for a pattern that keeps at least one photon on the circuit's modes the
+analyzer's probability equals the sampler's (untruncated) probability of that full pattern -/
+theorem analyzer_eq_sampler (nsq : K → Q) (hn : ∀ z, 0 ≤ nsq z) (U : M K) (nReal : Nat)
+    (input fo : FState) (hin : input.length = nReal) (hfo : fo.length = nReal) (hU : nReal < U.n)
+    (hpos : 0 < nReal) (hp : photons fo ≠ 0) (hle : photons fo ≤ photons input) :
+    analyzerProb nsq U (U.n - nReal) (input ++ List.replicate (U.n - nReal) 0) fo =
+      .ok (((fullDistPermanent nsq 0 U nReal input).get? fo).getD 0) :=
+  Proofs.C05.analyzer_eq_sampler nsq hn U nReal input fo hin hfo hU hpos hp hle
+
+/-- the outputs the analyzer reports are exactly the candidate outputs that satisfy every
+post-selection rule, in enumeration order -/
+theorem analyzerOutputs_spec (rules : List Rule) (im n : Nat) (lossy : Bool) (t : FState) :
+    t ∈ analyzerOutputs rules im n lossy ↔
+      psValidate rules t = true ∧
+      (if lossy then ∃ k ≤ n, t ∈ fockBasis im k else t ∈ fockBasis im n) :=
+  Proofs.C05.analyzerOutputs_spec rules im n lossy t
+
+/-- performance is the mean accepted total and the error rate one minus the mean
+accepted-and-expected fraction -/
+theorem analyze_performance_def (i : K) (nsq : K → Q) (c : Circ K) (rules : List Rule)
+    (inputs : List (List Occ)) (ex : Option (List (List FState))) (r : AnalysisResult Q)
+    (h : analyze i nsq c rules inputs ex = .ok r) :
+    r.performance = sumQ (r.probs.map sumQ) / ((r.probs.length : Nat) : Q) ∧
+    r.probs.length = inputs.length ∧
+    (∀ row ∈ r.probs, row.length = r.outputs.length) ∧
+    (r.errorRate.isSome ↔ ex.isSome) :=
+  Proofs.C05.analyze_performance_def i nsq c rules inputs ex r h
+
+theorem analyze_error_rate_def (i : K) (nsq : K → Q) (c : Circ K) (rules : List Rule)
+    (inputs : List (List Occ)) (ex : List (List FState)) (r : AnalysisResult Q)
+    (h : analyze i nsq c rules inputs (some ex) = .ok r) :
+    r.errorRate = some (sumQ ((r.probs.zip ex).map fun (row, exps) =>
+        exps.foldl (fun e o => match r.outputs.idxOf? o with
+          | some k => e - row.getD k 0 / sumQ row
+          | none => e) 1) / (((r.probs.zip ex).length : Nat) : Q)) :=
+  Proofs.C05.analyze_error_rate_def i nsq c rules inputs ex r h
+
+/-- QUICK SAMPLER = CONDITIONAL: every entry of the quick sampler's distribution is the probability
+of that output with heralds satisfied and no photon lost, divided by the total over all outputs
+that satisfy the post-selection (and, for threshold detection, hold at most one photon per mode)
+and survive the truncation; the entries sum to one. -/
+theorem quickDist_spec (i : K) (nsq : K → Q) (eps : Q) (heps : 0 ≤ eps) (c : Circ K) (rules : List Rule)
+    (pnr : Bool) (input : FState) (d : PDist Q) (h : quickDist i nsq eps c rules pnr input = .ok d) :
+    let U := c.Ufull i
+    let z := List.replicate (U.n - c.n) 0
+    let p := fun (o : FState) => transProb nsq U (addHeralds input c.inHer ++ z) (addHeralds o c.outHer ++ z)
+    let acc := ((fockBasis input.length (photons input)).filter fun o =>
+                  (pnr || o.all (· ≤ 1)) && psValidate rules o && decide (eps < p o))
+    d.map (·.1) = acc ∧
+    (∀ x ∈ d, x.2 = p x.1 / (acc.map p).sum) ∧
+    (d.map (·.2)).sum = 1 :=
+  Proofs.C05.quickDist_spec i nsq eps heps c rules pnr input d h
+
+/-- squared simulator amplitudes are sampler probabilities for lossless circuits -/
+theorem sim_sq_eq_sampler (nsq : K → Q) (U : M K) (nReal : Nat) (input t : FState)
+    (hU : U.n = nReal) (hin : input.length = nReal) (ht : t.length = nReal) (hpos : 0 < nReal)
+    (hp : photons t = photons input) (hne : photons input ≠ 0) (hpp : 0 < transProb nsq U input t) :
+    ((fullDistPermanent nsq 0 U nReal input).get? t).getD 0 =
+      nsq (ampNum U input t) / ((ampNormSq input t : Nat) : Q) :=
+  Proofs.C05.sim_sq_eq_sampler nsq U nReal input t hU hin ht hpos hp hne hpp
 
 end LW.C05
